@@ -13,6 +13,9 @@ r = subprocess.run(["git", "-C", "/repo", "apply", os.path.join(seed, "patch.dif
 if r.returncode != 0:
     print("patch does not apply"); sys.exit(2)
 res = {}
+tier = os.environ.get("MUTEST_TIER", "quick")
+if tier != "quick":
+    os.environ["FQ_NO_COQCHK"] = "1"   # the independent re-check of unchanged proofs is not what a mutation run is about
 import shutil
 saved = {}
 for pid in ids:
@@ -22,7 +25,7 @@ for pid in ids:
 try:
     for pid in ids:
         t0 = time.time()
-        p = subprocess.run([os.path.join(V, "bin", "vcheck"), pid, "quick"], stdout=subprocess.PIPE, stderr=subprocess.STDOUT, text=True)
+        p = subprocess.run([os.path.join(V, "bin", "vcheck"), pid, tier], stdout=subprocess.PIPE, stderr=subprocess.STDOUT, text=True)
         lines = p.stdout.strip().split("\n")
         viol = [l for l in lines if l.startswith("VIOLATION")]
         res[pid] = {"exit": p.returncode, "violation": viol[-1] if viol else None, "wall_s": round(time.time() - t0, 1), "tail": lines[-3:]}
@@ -33,4 +36,4 @@ finally:
         open(os.path.join(V, "evidence", pid + ".json"), "w").write(txt)
     subprocess.run(["git", "-C", "/repo", "checkout", "--", "."])
     subprocess.run(["git", "-C", "/repo", "clean", "-fdq", "-e", "target"])
-json.dump(res, open(os.path.join(seed, "check_result.json"), "w"), indent=1)
+json.dump(res, open(os.path.join(seed, "check_result.json" if tier == "quick" else "check_result_%s.json" % tier), "w"), indent=1)
